@@ -69,8 +69,10 @@ type srcFile struct {
 	rel     string
 	dir     string // package directory, relative
 	ast     *ast.File
-	errName string // local name of the library's errors package ("" if not imported; "." inside package errors)
-	imports map[string]string
+	errNames map[string]bool // local names of the library's errors package in this file
+	inErrors bool            // the file belongs to package errors itself
+	dotErr   bool            // the errors package is dot-imported (not supported: reported as unresolved)
+	imports  map[string]string
 }
 
 // wrapper: function whose parameter #param (type errors.ErrorCode) reaches Format with `extra` further arguments.
@@ -104,6 +106,8 @@ type extractor struct {
 	// mentions of the type ErrorCode that are accounted for
 	typeOK map[ast.Expr]bool
 }
+
+func (f *srcFile) usesErrors() bool { return f.inErrors || len(f.errNames) > 0 }
 
 func (x *extractor) pos(n ast.Node) token.Position { return x.fset.Position(n.Pos()) }
 
@@ -169,21 +173,24 @@ func (x *extractor) load() error {
 			return err
 		}
 		rel, _ := filepath.Rel(x.root, p)
-		sf := &srcFile{rel: filepath.ToSlash(rel), dir: filepath.ToSlash(filepath.Dir(rel)), ast: af, imports: map[string]string{}}
+		sf := &srcFile{rel: filepath.ToSlash(rel), dir: filepath.ToSlash(filepath.Dir(rel)), ast: af, imports: map[string]string{}, errNames: map[string]bool{}}
 		for _, im := range af.Imports {
 			ipath, _ := strconv.Unquote(im.Path.Value)
 			name := ipath[strings.LastIndex(ipath, "/")+1:]
 			if im.Name != nil {
 				name = im.Name.Name
 			}
-			sf.imports[name] = ipath
 			if ipath == x.module+"/errors" {
-				sf.errName = name
+				if name == "." {
+					sf.dotErr = true
+				} else if name != "_" {
+					sf.errNames[name] = true
+				}
+				continue
 			}
+			sf.imports[name] = ipath
 		}
-		if sf.dir == "errors" {
-			sf.errName = "."
-		}
+		sf.inErrors = sf.dir == "errors"
 		x.files = append(x.files, sf)
 	}
 	return nil
@@ -193,10 +200,10 @@ func (x *extractor) load() error {
 func (x *extractor) isErrorCodeType(f *srcFile, e ast.Expr) bool {
 	switch t := e.(type) {
 	case *ast.Ident:
-		return f.errName == "." && t.Name == "ErrorCode"
+		return f.inErrors && t.Name == "ErrorCode"
 	case *ast.SelectorExpr:
 		if id, ok := t.X.(*ast.Ident); ok {
-			return f.errName != "" && f.errName != "." && id.Name == f.errName && t.Sel.Name == "ErrorCode"
+			return f.errNames[id.Name] && t.Sel.Name == "ErrorCode"
 		}
 	}
 	return false
@@ -208,11 +215,11 @@ func (x *extractor) codeConst(f *srcFile, e ast.Expr) (string, bool) {
 	case *ast.ParenExpr:
 		return x.codeConst(f, t.X)
 	case *ast.Ident:
-		if f.errName == "." && x.consts[t.Name] {
+		if f.inErrors && x.consts[t.Name] {
 			return t.Name, true
 		}
 	case *ast.SelectorExpr:
-		if id, ok := t.X.(*ast.Ident); ok && f.errName != "" && f.errName != "." && id.Name == f.errName && x.consts[t.Sel.Name] {
+		if id, ok := t.X.(*ast.Ident); ok && f.errNames[id.Name] && x.consts[t.Sel.Name] {
 			return t.Sel.Name, true
 		}
 	}
@@ -222,16 +229,24 @@ func (x *extractor) codeConst(f *srcFile, e ast.Expr) (string, bool) {
 func (x *extractor) isFormatCall(f *srcFile, c *ast.CallExpr) bool {
 	switch fn := c.Fun.(type) {
 	case *ast.Ident:
-		return f.errName == "." && fn.Name == "Format"
+		return f.inErrors && fn.Name == "Format"
 	case *ast.SelectorExpr:
 		if id, ok := fn.X.(*ast.Ident); ok {
-			return f.errName != "" && f.errName != "." && id.Name == f.errName && fn.Sel.Name == "Format"
+			return f.errNames[id.Name] && fn.Sel.Name == "Format"
 		}
 	}
 	return false
 }
 
 // ---- pass 1: constants and templates ----
+
+func (x *extractor) checkImports() {
+	for _, f := range x.files {
+		if f.dotErr {
+			x.unresolved(f, f.ast.Name, "the errors package is dot-imported: its names cannot be told apart syntactically")
+		}
+	}
+}
 
 func (x *extractor) readTable() {
 	for _, f := range x.files {
@@ -471,7 +486,7 @@ func (x *extractor) scanFormatCalls() {
 	fields := x.codeFields()
 	formatFields := map[codeField]int{} // field that reaches Format -> number of extra arguments
 	for _, f := range x.files {
-		if f.errName == "" {
+		if !f.usesErrors() {
 			continue
 		}
 		for _, d := range f.ast.Decls {
@@ -538,7 +553,7 @@ func (x *extractor) scanFormatCalls() {
 	}
 	// Format calls outside function bodies (package-level initialisers)
 	for _, f := range x.files {
-		if f.errName == "" {
+		if !f.usesErrors() {
 			continue
 		}
 		for _, d := range f.ast.Decls {
@@ -860,7 +875,7 @@ func (x *extractor) matchWrapper(f *srcFile, c *ast.CallExpr) *wrapper {
 
 func (x *extractor) scanBare() {
 	for _, f := range x.files {
-		if f.errName == "" {
+		if !f.usesErrors() {
 			continue
 		}
 		excluded := map[ast.Expr]bool{}
@@ -1080,6 +1095,7 @@ func Run(args []string) {
 		rep.Finish()
 		return
 	}
+	x.checkImports()
 	x.readTable()
 	if len(x.consts) == 0 || !x.tmplSeen {
 		x.unres = append(x.unres, unres{"errors/code.go", 0, 0, "code constants or the errorFormat table not found"})
